@@ -256,8 +256,14 @@ func convexHull(context *api.Context, c b6.Collection[any, b6.Geometry]) (b6.Are
 			break
 		}
 
+		if i.Value() == nil {
+			continue
+		}
 		switch i.Value().GeometryType() {
 		case b6.GeometryTypePoint:
+			if !i.Value().Point().IsUnit() {
+				return nil, fmt.Errorf("convex-hull: point has invalid coordinates")
+			}
 			query.AddPoint(i.Value().Point())
 		case b6.GeometryTypePath:
 			for j := 0; j < i.Value().GeometryLen(); j++ {
